@@ -995,7 +995,10 @@ def decode_report(v, table):
             e = err()
             evs.append(["F", e[0] + ":" + e[1]])
         else:
-            evs.append([{0: "C", 1: "G", 2: "S"}[k], s()])
+            name = s()
+            if k == 2:      # ESet = the post-construction `id in dic` test followed by dic[id] = obj
+                evs.append(["C", name])
+            evs.append([{0: "C", 1: "G", 2: "S"}[k], name])
     r["events"] = evs
     r["dead"], r["moved"], r["targets"] = ss(), ss(), ss()
     r["terms"] = ss() if nxt() == 1 else None
